@@ -156,4 +156,11 @@ def check(ctx):
     # 'one owner per pool slot' across the OgreUnique -> OgreArc conversion (shared with C14 R14.5 / R14.8): a conversion that lets the unique handle's Drop run frees
     # the slot the new shared handle still owns -- the slot is handed out twice (two accepted events in one slot) and freed twice
     __import__("importlib").import_module("props.C14").check_unique_to_shared(ctx, "R05.3")
+    # R05.11 a reserved slot that was wrapped in its owning handle is answered `true` (a `false` invites the documented retry / cancel: a second free -- C08 R08.6), and
+    # the ogre_arc sends own their slot through ONE handle from allocation to fan-out, also across the setter's await (a future dropped mid-await must free it -- C03 R03.2)
+    for (mod_, rules_, filt_) in (("props.C08", ("R08.6",), ""), ("props.C03", ("R03.2",), "ogre_arc")):
+        sub_ = util.fresh_ctx(ctx, mod_[-3:])
+        util.guarded(ctx, importlib.import_module(mod_).check, sub_)
+        for o in sub_.obs:
+            if o["rule"] in rules_ and filt_ in o["key"]: ctx.ob("R05.11", o["key"], o["ok"], o["site"], o["detail"], o["nontrivial"])
     ctx.floor("R05.5", 4); ctx.floor("R05.6", 2); ctx.floor("R05.7", 2); ctx.floor("R05.2", 5); ctx.floor("R05.4", 4)
